@@ -329,3 +329,63 @@ def pubrel_race_family(report, prop, label="pubrel-race"):
     report.obligation("corr:" + label, "correspondence", ok, f"{len(scripts)} scripted scenarios (buffer splits x ack kinds x continuations x versions), every response compared")
     report.obligation("mon:" + label + "-no-panic", "monitor", nopanic, "no panic on any of them")
     return ok and nopanic
+
+
+def due_timeout_family(report, prop, label="due-timeout-while-writing"):
+    """an operation's ack timeout falls due while another operation (whose own record is earlier) is half written and the
+    socket has not yet taken the bytes: the reported next-service time must not be later than that due timeout, and the
+    service call at that time applies it.  Every buffer split x both versions x which operation is half written."""
+    from gv import harness_batch, resp_fields
+    scripts = []
+    for v in ("5", "311"):
+        connack = "x20020000" if v == "311" else "x2003000000"
+        for cap in (4, 5, 6, 8):
+            for pre in range(0, cap - 3):
+                for gap in (5, 40):
+                    # A: QoS 2 publish, ack timeout 10 (record at t=0+10 once the PUBLISH is written, re-armed when the PUBREL is);
+                    # B: subscribe with ack timeout 10+gap, written at t=0
+                    sc = [f"eng.new v={v} policy=all drain=none pingto=100000 resolver=none rmax=2 | ka=0 cid=x636c6b rm=10",
+                          "eng.open t=0 deadline=1000", "eng.svc t=0 cap=4096 prefill=0", "eng.wc t=0", f"eng.data t=0 b={connack}",
+                          "eng.pub t=0 timeout=10 | publish pid=0 topic=x742f30 qos=2 retain=0 payload=x0000",
+                          f"eng.sub t=0 timeout={10 + gap} | subscribe pid=0 sub=x662f30:1:0:0:0",
+                          "eng.svc t=0 cap=4096 prefill=0", "eng.wc t=0", "eng.data t=1 b=x50020001",
+                          f"eng.svc t=2 cap={cap} prefill={pre}", "eng.snap", "eng.nst t=3"]
+                    scripts.append((sc, 10 + gap))
+    reqs, starts = [], []
+    for sc, _ in scripts:
+        starts.append(len(reqs))
+        reqs.append("session.reset")
+        reqs += sc
+    impl = harness_batch(reqs)
+    model = driver_batch(reqs)
+    ok, mon, bad, judged = True, True, 0, 0
+    for k, st in enumerate(starts):
+        end = starts[k + 1] if k + 1 < len(starts) else len(reqs)
+        report.case("|".join(reqs[st + 1:end]))
+        for i in range(st, end):
+            if canon(impl[i]) != canon(model[i]):
+                if bad < 4:
+                    report.add_finding(Finding(prop, "corr:" + label, {"clause": "model-vs-impl", "verb": reqs[i].split(" ")[0]},
+                                               "due-timeout scenario: implementation and model disagree", reqs[st + 1:i + 1] + ["# impl:  " + impl[i][:400], "# model: " + model[i][:400]], has_input=False))
+                ok = False
+                bad += 1
+                break
+        snap, _ = resp_fields(impl[end - 2])
+        nst, _ = resp_fields(impl[end - 1])
+        due = scripts[k][1]
+        # the subscribe (operation 3; the CONNECT is 1, the publish 2) still has its record, the engine is Connected, and the PUBREL is half written with the write pending
+        if snap.get("state") == "Connected" and snap.get("cur") not in (None, "none") and f"3:{due}" in snap.get("timeouts", "") and snap.get("pwc") == "1":
+            judged += 1
+            nxt = nst.get("next")
+            if nxt in (None, "never") or int(nxt) > due:
+                mon = False
+                if bad < 8:
+                    report.add_finding(Finding(prop, "mon:" + label, {"clause": "due-timeout-not-reported"},
+                                               f"the subscribe's ack timeout is due at {due} ms, the PUBREL of another operation is half written: next service time reported is {nxt}",
+                                               reqs[st + 1:end]))
+                bad += 1
+    report.count(label + ".scenarios", len(scripts))
+    report.count(label + ".judged", judged)
+    report.obligation("corr:" + label, "correspondence", ok, f"{len(scripts)} scripted scenarios, every response compared")
+    report.obligation("mon:" + label, "monitor", mon and judged > 0, f"{judged} states with a half-written operation and another operation's timeout pending: the reported time is not later than that timeout")
+    return ok and mon
